@@ -891,6 +891,13 @@ func rejectCases() []jCase {
 		add("BroadcastAddr", ip+":0")
 		add("ListenAddr", ip, ip+":0", ip+":60000")
 		add("ControllerAddr", ip+":0")
+		// port numbers beyond 65535 are no port numbers - in particular not the one they are congruent to modulo 2^16 (60001, 1, 0
+		// and the default port among them), however many digits they have
+		for _, port := range []string{"65536", "65537", "70000", "99999", "125536", "125537", "131072", "655360", "4294967296", "4295027297", "18446744073709551617"} {
+			for _, typ := range []string{"BindAddr", "BroadcastAddr", "ListenAddr", "ControllerAddr"} {
+				add(typ, ip+":"+port)
+			}
+		}
 	}
 	return out
 }
